@@ -7,6 +7,11 @@
  * pthread_create fails with EAGAIN, as it does when a process runs into
  * RLIMIT_NPROC / pids.max / memory limits. A conversion may then fail; it must
  * not return different bytes.
+ *
+ * Clock jumps: with VERIF_CLOCK_JUMP_PERIOD=k every k-th clock_gettime() made
+ * inside a conversion finds the clock 5 s further on (cumulative, so monotonic
+ * clocks stay monotonic): a loaded or suspended machine. What a conversion
+ * returns must not depend on how long it took.
  */
 #define _GNU_SOURCE
 #include <dlfcn.h>
@@ -38,4 +43,35 @@ int pthread_create(pthread_t *t, const pthread_attr_t *a, void *(*f)(void *), vo
         }
     }
     return real(t, a, f, arg);
+}
+
+#include <time.h>
+#include <sys/syscall.h>
+#include <unistd.h>
+
+static long jump_period = 0;
+static volatile long clock_calls = 0;
+static volatile long long clock_offset_s = 0;
+static volatile long clock_jumps = 0;
+
+long verif_clock_jumps(void) { return clock_jumps; }
+
+int clock_gettime(clockid_t id, struct timespec *ts) {
+    long r = syscall(SYS_clock_gettime, id, ts);
+    if (!jump_period) {
+        const char *p = getenv("VERIF_CLOCK_JUMP_PERIOD");
+        jump_period = p ? atol(p) : -1;
+        if (jump_period == 0) jump_period = -1;
+    }
+    if (r == 0 && jump_period > 0) {
+        if (thr_on) {
+            long n = __sync_add_and_fetch(&clock_calls, 1);
+            if (n % jump_period == 0) {
+                __sync_add_and_fetch(&clock_offset_s, 5);
+                __sync_add_and_fetch(&clock_jumps, 1);
+            }
+        }
+        ts->tv_sec += clock_offset_s;
+    }
+    return (int)r;
 }
